@@ -44,6 +44,10 @@ EXPLANATION = (
     "range-merging generator's branch structure. R6: sark.struct is parsed "
     "by the checker: every vcpu field popped/renamed exists and the final "
     "key set equals ProcessorStatus._fields.")
+EXPLANATION += (
+    " R2 also checks the class hierarchy of what send_scp_burst raises "
+    "against the handler of the probe. R6 also requires each status field "
+    "to be decoded with its own pack_chars at its own offset.")
 NOT_DECIDED = ["that the machine's replies mean what the documentation says",
                "behaviour when a chip stops responding mid-probe (only the "
                "SCPError skip is checked)"]
